@@ -1,8 +1,8 @@
 """C08 - memoised results are never stale or ambiguous."""
-import itertools, math, random, threading
+import itertools, json, math, random, threading
 from .. import tlc, gen, common, sched
 
-OPS1 = '{"SetConst","SetInit","SetInitElem","SetFlow","SetConv","SetStockEq","SetW","Eval","EvalElem","Plot","ResetCache","RunTwice"}'
+OPS1 = '{"ScnRun","ScnRerun","SetConst","SetInit","SetInitElem","SetFlow","SetConv","SetStockEq","SetW","Eval","EvalElem","Plot","ResetCache","RunTwice"}'
 
 
 def consts(dev='{}', threads='("t1" :> "x" @@ "t2" :> "z")'):
@@ -67,9 +67,39 @@ def reference(defs, e, t):
     return {"c": c, "f": fl, "s": s, "w": w, "y": s * 2.0 + w if defs["yv"] == 1 else s + 10.0 + w}[e]
 
 
+def run_scenario(b0, defs, n, what, sim=None):
+    """run the scenario 'ovr' of b0 (or start the given SdSimulation) and compare c, f, s (and y once w is defined) with the closed form"""
+    eqs = ["c", "f", "s"] + (["y"] if defs.get("w", 0) > 0 else [])
+    if sim is not None:
+        df = sim.start(output=["frame"], equations=eqs)
+    else:
+        df = b0.run_scenarios(scenario_managers=["smo"], scenarios=["ovr"], equations=eqs, return_format="df")
+    for e in eqs:
+        got = [float(v) for v in df[e if e in df.columns else "smo_ovr_" + e]]
+        want = [reference(defs, e, t) for t in range(4)]
+        if len(got) != 4 or any(not math.isclose(a, w, abs_tol=1e-9) for a, w in zip(got, want)):
+            return {"step": n, "clause": "%s: the scenario's run reports %s differently from a freshly built model with the final definitions" % (what, e),
+                    "expected": want, "observed": got, "definitions": defs}
+    return None
+
+
 def replay1(hist):
     BPTK_Py = common.use_repo()
-    m = build({"c": 1, "iv": 0, "fv": 1, "yv": 1, "w": 0, "sv": 1})
+    # the model under edit is the model of a scenario of a bptk object (so that scenario overrides can be part of the history)
+    b0 = BPTK_Py.bptk()
+    try:
+        b0.register_model(build({"c": 1, "iv": 0, "fv": 1, "yv": 1, "w": 0, "sv": 1}), scenario_manager="smo", scenario={"ovr": {}})
+        return _replay1(hist, BPTK_Py, b0)
+    finally:
+        b0.destroy()
+
+
+def _replay1(hist, BPTK_Py, b0):
+    scn = b0.get_scenario("smo", "ovr")
+    m = scn.model
+    # the scenario's model is a copy made from the function strings of the registered one: its elements do not carry their equation
+    # objects, so the definitions are assigned once more through the modelling API before the history starts
+    apply_defs(m, {"c": 1, "iv": 0, "fv": 1, "yv": 1, "w": 0, "sv": 1}, all_=True)
     for n, h in enumerate(hist):
         op = h["op"]
         try:
@@ -80,6 +110,23 @@ def replay1(hist):
             elif op == "SetStockEq": apply_defs(m, h["defs"], only="seq")
             elif op == "SetW": apply_defs(m, h["defs"], only="w")
             elif op == "ResetCache": m.reset_cache()
+            elif op in ("ScnRun", "ScnRerun"):
+                sim = None
+                if op == "ScnRun":
+                    scn.constants["c"] = float(h["v"])
+                    if h["how"] == "scenario":
+                        b0.reset_scenario_cache(scenario_manager="smo", scenario="ovr")
+                    elif h["how"] == "model":
+                        m.reset_cache()
+                    else:
+                        from BPTK_Py.sdsimulation import SdSimulation
+                        sim = SdSimulation(model=m, name="direct")
+                        sim.change_equation(name="c", value=float(h["v"]))
+                        m.reset_cache()
+                bad = run_scenario(b0, h["defs"], n, "override set to %s, cache reset through the %s" % (h["v"], h["how"]) if op == "ScnRun" else "run again", sim)
+                if bad:
+                    bad["history"] = [{a: b for a, b in x.items() if a != "defs"} for x in hist[:n + 1]]
+                    return bad
             elif op == "Plot":
                 el = element_of(m, h["e"])
                 df = el.plot(return_df=True)
@@ -108,10 +155,11 @@ def replay1(hist):
                     for eqs in (["s", "y", "f", "c"], ["y"], ["c", "f", "s", "y"]):
                         df = b.run_scenarios(scenario_managers=["smm"], scenarios=["base"], equations=eqs, return_format="df")
                         runs.append({e: [float(v) for v in df[e if e in df.columns else "smm_base_" + e]] for e in eqs})
+                    layer = dict(h["defs"], c=h["defs"].get("cd", h["defs"]["c"]))      # a copy of the model starts from its own definitions
                     for e in ("s", "y", "f", "c"):
                         if e == "y" and h["defs"].get("w", 0) == 0:
                             continue
-                        want = [reference(h["defs"], e, t) for t in range(4)]
+                        want = [reference(layer, e, t) for t in range(4)]
                         for r in runs:
                             if e in r and any(not math.isclose(a, w, abs_tol=1e-9) for a, w in zip(r[e], want)):
                                 return {"step": n, "clause": "repeated run / different equation list reports different %s" % e,
@@ -196,6 +244,10 @@ def run(tier, replay_file=None):
                  view="View1", constraints=["VerBound"], timeout=3000)
     if dv.violation != "NoStale":
         raise common.Machinery("deviation D08a does not violate NoStale in the spec")
+    dv = tlc.run("Memo", dict(small, Dev='{"D08c_override_installed_over_memo"}', Ops='{"ScnRun","ScnRerun","SetConst","Eval"}'), init="Init1", next="Next1", invariants=["NoStale"],
+                 view="View1", constraints=["VerBound"], timeout=3000)
+    if dv.violation != "NoStale":
+        raise common.Machinery("deviation D08c does not violate NoStale in the spec")
     hs, _ = gen.histories("Memo", consts(), 12 if quick else 18, simulate=60 if quick else 800, seed=common.seed() + 31, cache=False,
                           extra_cfg={"init": "Init1", "next": "Next1"})
     b1 = dict(consts()); b1["Ops"] = '{"SetConst","SetInit","SetInitElem","SetFlow","SetConv","SetStockEq","SetW","Eval"}'; b1["Times"] = '{2}'; b1["CVals"] = '{1,3}'; b1["IVals"] = '{0,5}'
@@ -204,7 +256,16 @@ def run(tier, replay_file=None):
     b2 = dict(b1); b2["Ops"] = '{"SetConst","SetInit","SetInitElem","SetFlow","SetStockEq","Eval","EvalElem","Plot"}'
     routes, _ = gen.histories("Memo", b2, 3, extra_cfg={"init": "Init1", "next": "Next1", "action_constraints": ["MC_Fill"]},
                               defs='MC_Fill == LET n == Len(hist) IN /\\ (n \\in {0, 2} => hist\'[n + 1].op \\in {"Eval", "Plot"}) /\\ (n = 1 => hist\'[2].op \\notin {"Eval", "Plot"})\n')
-    bfs = bfs + routes
+    # the scenario layer: an override set and run, then edits / evaluations, then the scenario run again with or without a reset
+    b3 = dict(b1); b3["Ops"] = '{"ScnRun","ScnRerun","SetConst","SetFlow","Eval"}'
+    scn, _ = gen.histories("Memo", b3, 4, extra_cfg={"init": "Init1", "next": "Next1", "action_constraints": ["MC_Scn"]},
+                           defs='MC_Scn == LET n == Len(hist\') h == hist\'[n] IN /\\ (n = 1 => h.op = "ScnRun") /\\ (n = 2 => h.op \\in {"SetConst", "SetFlow", "ScnRun", "Eval"})\n'
+                                '             /\\ (n = 3 => h.op \\in {"Eval", "ScnRun", "ScnRerun"}) /\\ (n = 4 => h.op \\in {"ScnRerun", "ScnRun", "Eval"})\n')
+    R.cov["scenario_override_histories"] = len(scn)
+    if quick:       # every history of three operations, and every fifth of four
+        short = {json.dumps(h[:3], sort_keys=True): h[:3] for h in scn}
+        scn = list(short.values()) + scn[::5]
+    bfs = bfs + routes + scn
     R.cov["fill_edit_read_histories"] = len(routes)
     R.cov["bfs_histories"], R.cov["sim_histories"] = len(bfs), len(hs)
     evals = 0
